@@ -137,6 +137,7 @@ pub fn eval(case: &Case) -> CaseOut {
     out.hash = run::hash_str(&serde_json::to_string(case).unwrap_or_default());
     let mut cfg = RunCfg::new(&[Aspect::Panic, Aspect::Budget]);
     cfg.flush_each = false;
+    cfg.idle_second_handle = true;
     let mut vol = case.vol.clone();
     vol.access_date = false;
     let mut run = match Run::new(&cfg, &vol) {
@@ -364,6 +365,42 @@ pub fn run(tier: Tier, seed: u64) -> i32 {
                 }
             }
             None
+        });
+        rep.add(b);
+    }
+    // an older handle on the same file, flushed and idle, is dropped after a newer handle has extended and flushed the
+    // file: the drop hands nothing to the storage and must not put the older entry back
+    if !rep.failed() {
+        let vols: Vec<crate::vol::VolCfg> = [1usize, 8, 12].iter().map(|p| crate::vol::VolCfg::from_preset(*p)).collect();
+        let b = run::run_indexed("idle_older_handle_dropped_after_a_newer_flush", (vols.len() * 3) as u64, |i, blk| {
+            let v = &vols[i as usize / 3];
+            let cs = v.cluster_size();
+            let variant = i % 3;
+            let mut ops = vec![
+                Op::CreateFile { via: 0, path: "shared.bin".into(), keep: 1 },
+                Op::Write { h: 0, len: cs / 2, seed: 1 },
+                Op::Flush { h: 0 },
+                Op::OpenFile { via: 0, path: "shared.bin".into(), keep: 2 },
+                Op::Seek { h: 1, whence: 2, off: 0 },
+                Op::Write { h: 1, len: cs / 2, seed: 2 },
+                Op::Write { h: 1, len: cs, seed: 3 },
+            ];
+            match variant {
+                0 => ops.push(Op::Flush { h: 1 }),
+                1 => ops.push(Op::CloseFile { h: 1 }),
+                _ => ops.extend([Op::Seek { h: 1, whence: 0, off: 10 }, Op::Truncate { h: 1 }, Op::Flush { h: 1 }]),
+            }
+            ops.extend([
+                Op::CloseFile { h: 0 },
+                Op::CreateFile { via: 0, path: "later.txt".into(), keep: 3 },
+                Op::Write { h: 2, len: 30, seed: 4 },
+                Op::CloseFile { h: 2 },
+            ]);
+            let case = Case { vol: v.clone(), ops };
+            let mut out = eval(&case);
+            out.nontrivial = true;
+            blk.record(&out, || serde_json::json!({"vol": v, "variant": variant}));
+            out.violation.map(|m| Failure { message: m, case: serde_json::to_value(&case).unwrap(), kind: "crash".into() })
         });
         rep.add(b);
     }
